@@ -21,9 +21,10 @@ def f32s(bits):
 
 # memory layout given to every array handed to a constructor by build(): None = a fresh C-contiguous little-endian
 # array; otherwise an array with the same shape, dtype kind and VALUES but another layout in memory
+PARTIAL_GAPS = False  # True: a missing frame is marked by NaN in its FIRST component only (that is the library's rule), the others hold numbers
 STRAY_LINKS = 0       # > 0: Data3D blocks of a link-less format are given that many links all the same
 LAYOUT = None
-LAYOUTS = ("F", "strided", "reversed", "bigendian", "readonly", "offset")
+LAYOUTS = ("F", "strided", "reversed", "bigendian", "readonly", "offset", "masked")
 
 
 def lay(a):
@@ -45,11 +46,22 @@ def lay(a):
         b = a.copy()
         b.flags.writeable = False
         return b
+    if LAYOUT == "masked":                          # only for the samples of a track: see lay_track
+        return a
     if LAYOUT == "offset":                          # unaligned start inside a byte buffer
         raw = bytearray(1 + a.nbytes)
         raw[1:] = np.ascontiguousarray(a).tobytes()
         return np.frombuffer(raw, dtype=a.dtype, offset=1, count=a.size).reshape(a.shape)
     raise KeyError(LAYOUT)
+
+
+def lay_track(a):
+    """the samples of a track / signal / platform.  Layout "masked": a numpy masked array — the missing frames are its mask,
+    with numbers underneath, not NaN (what np.ma.masked_invalid / masked_where / a masked reader hand back)"""
+    if LAYOUT == "masked" and isinstance(a, np.ndarray) and a.dtype.kind == "f":
+        m = np.isnan(a)
+        return np.ma.masked_array(np.where(m, a.dtype.type(5.5), a), mask=m)
+    return lay(a)
 
 
 def f32a(bits, shape=None):
@@ -296,6 +308,8 @@ def frames_array(frames, ncomp):
     for i, fr in enumerate(frames):
         if fr != []:
             u[i, :] = fr
+        elif PARTIAL_GAPS and ncomp > 1:
+            a[i, 1:] = [float(7 * i + j) / 4 for j in range(1, ncomp)]      # left-over numbers behind the NaN that marks the gap
     return a
 
 
@@ -313,7 +327,7 @@ def build(kind, fmt, v, **kw):
             # block was read in): the format does not store them, so they are no part of the value
             d.links = np.array([(0, 1), (1, 0), (0, 0)][:STRAY_LINKS], dtype=LinkType.btype)
         for label, frames in v[9]:
-            d.add_track(MarkerTrack(txt(label), lay(frames_array(frames, 3))))
+            d.add_track(MarkerTrack(txt(label), lay_track(frames_array(frames, 3))))
         return d
     if kind == "EM":
         from basictdf.tdfEMG import EMG, EMGBlockFormat, EMGTrack
@@ -324,7 +338,7 @@ def build(kind, fmt, v, **kw):
             for i, fr in enumerate(frames):
                 if fr != []:
                     u[i] = fr
-            e.addSignal(EMGTrack(txt(label), lay(a)), channel=ch)
+            e.addSignal(EMGTrack(txt(label), lay_track(a)), channel=ch)
         return e
     if kind == "FT":
         from basictdf.tdfForce3D import ForceTorque3D, ForceTorque3DBlockFormat, ForceTorqueTrack
@@ -332,8 +346,8 @@ def build(kind, fmt, v, **kw):
                           translationVector=f32a(v[6]), startTime=f32s(v[2]), format=ForceTorque3DBlockFormat(fmt))
         for label, frames in v[8]:
             a = frames_array(frames, 9)
-            f.add_track(ForceTorqueTrack(txt(label), lay(np.ascontiguousarray(a[:, 0:3])),
-                                         lay(np.ascontiguousarray(a[:, 3:6])), lay(np.ascontiguousarray(a[:, 6:9]))))
+            f.add_track(ForceTorqueTrack(txt(label), lay_track(np.ascontiguousarray(a[:, 0:3])),
+                                         lay_track(np.ascontiguousarray(a[:, 3:6])), lay_track(np.ascontiguousarray(a[:, 6:9]))))
         return f
     if kind == "PD":
         from basictdf.tdfForcePlatformsData import (ForcePlatformBlockFormat, ForcePlatformData,
@@ -342,8 +356,8 @@ def build(kind, fmt, v, **kw):
                                     format=ForcePlatformBlockFormat(fmt))
         for ch, frames in zip(v[4], v[5]):
             a = frames_array(frames, 6)
-            b.add_platform(ForcePlatformData(lay(np.ascontiguousarray(a[:, 0:2])), lay(np.ascontiguousarray(a[:, 2:5])),
-                                             lay(np.ascontiguousarray(a[:, 5]))), channel=ch)
+            b.add_platform(ForcePlatformData(lay_track(np.ascontiguousarray(a[:, 0:2])), lay_track(np.ascontiguousarray(a[:, 2:5])),
+                                             lay_track(np.ascontiguousarray(a[:, 5]))), channel=ch)
         return b
     if kind == "PC":
         from basictdf.tdfForcePlatformsCalibration import (ForcePlatformCalibrationBlockFormat,
